@@ -25,7 +25,7 @@ from harness.props import c14 as h14
 from harness.props.c12 import b
 
 RULE = ("small datasets (3 names stored, flat/deep x gzip on/off); for each of store_file (new name, existing name "
-        "with and without overwrite), store_chunk, fetch_file, fetch_chunk, file_exists: the primitive calls are "
+        "with and without overwrite, same and other MIME class), store_chunk, fetch_file, fetch_chunk, file_exists: the primitive calls are "
         "numbered by a fault-free instrumented run and the operation is re-run once per call index x errno in "
         "{ENOSPC, EACCES, EIO, ENOENT}, and once per cut index x truncation class (empty / 1 byte / half); the same "
         "for ShardedFileAccessor store_file / fetch_file / file_exists; HTTP: every request index of plain and "
@@ -80,6 +80,12 @@ def candidate_ops(rng):
         ["sf", "a/b", big, "application/octet-stream", True],
         ["sf", "a/b", big, "application/octet-stream", False],
         ["sf", "info", b"{}", "application/json", True],
+        # the same names under the OTHER MIME class: the accessor must drop the other form
+        # (is_file, unlink) or refuse (overwrite=False)
+        ["sf", "a/b", big, "image/png", True],
+        ["sf", "a/b", big, "image/png", False],
+        ["sf", "info", big, "application/octet-stream", True],
+        ["sc", "k", [0, 64, 0, 64, 0, 64], big, "image/jpeg", True],
         ["sc", "k", [0, 64, 0, 64, 0, 64], big, "application/octet-stream", True],
         ["sc", "k2", [64, 128, 0, 64, 0, 1], big, "image/jpeg", False],
         ["ff", "a/b"], ["ff", "nope"], ["ff", "info"],
@@ -151,10 +157,15 @@ def file_accessor_part(R, quick):
                         R.violation("failing primitive not reported as a data-access / I/O error", case,
                                     {"impl": h12._short(out)})
                     # oracle 2: the files of the other names are unchanged
-                    target = events[k][1] if events[k][0] in ("open", "write", "close") else None
+                    # the paths of the operation's own name: both of its forms (plain and .gz)
+                    own = set()
+                    for ev in events:
+                        if ev[0] in ("isfile", "unlink", "open", "write", "close"):
+                            q = ev[1][:-3] if ev[1].endswith(".gz") else ev[1]
+                            own |= {q, q + ".gz"}
                     for path, data in h12.snapshot(pristine).items():
                         wp = path.replace(pristine, work)
-                        if data is not None and wp != target and snap.get(wp) != data:
+                        if data is not None and wp not in own and snap.get(wp) != data:
                             R.violation("a failing operation changed another name's file", case, {"path": wp})
                     # oracle 3: the name itself is still readable as before, or the failure is the known gap
                     if op[0] in ("sf", "sc") and ffs.fired:
